@@ -596,6 +596,10 @@ pub fn pow(lhs: &Value, rhs: &Value) -> Result<Value, Error> {
         Some(CoerceResult::I128(a, b)) => {
             match TryFrom::try_from(b).ok().and_then(|b| a.checked_pow(b)) {
                 Some(val) => Ok(int_as_value(val)),
+                // 0, 1 and -1 can be raised to any power, also to one beyond `u32`
+                None if b > 0 && (-1..=1).contains(&a) => {
+                    Ok(int_as_value(if b % 2 == 0 { a * a } else { a }))
+                }
                 None => Err(failed_op("**", lhs, rhs)),
             }
         }
@@ -674,6 +678,21 @@ mod tests {
     fn test_neg() {
         let err = neg(&Value::from(i128::MIN)).unwrap_err();
         assert_eq!(err.to_string(), "invalid operation: overflow");
+    }
+
+    #[test]
+    fn test_pow_unit_bases() {
+        // 0, 1 and -1 have powers for exponents beyond u32 too
+        let big = Value::from(1u64 << 32);
+        assert_eq!(pow(&Value::from(1), &big).unwrap(), Value::from(1));
+        assert_eq!(pow(&Value::from(0), &big).unwrap(), Value::from(0));
+        assert_eq!(pow(&Value::from(-1), &big).unwrap(), Value::from(1));
+        assert_eq!(
+            pow(&Value::from(-1), &Value::from((1u64 << 32) + 1)).unwrap(),
+            Value::from(-1)
+        );
+        assert!(pow(&Value::from(2), &big).is_err());
+        assert!(pow(&Value::from(1), &Value::from(-1)).is_err());
     }
 
     #[test]
